@@ -20,11 +20,11 @@ ID = "C18"
 DESIGN_REF = "DESIGN.md section 4 / C18"
 TECHNIQUE = "runtime monitoring: history monitor with an isolated-process reference - a random interleaving of builds and spec reuses on shared objects (process A) versus the same calls in shuffled order on freshly rebuilt objects in a fresh interpreter under another PYTHONHASHSEED (process B); sha256 digests per call; inputs compared before/after"
 LEVEL_TEXT = (
-    "Histories of 8-30 interleaved operations (direct builds, shared Formula objects, fits, replays through fitted / unfitted / "
+    "Histories of 8-30 interleaved operations (direct builds, shared Formula objects, long-lived materializer objects, fits, replays through fitted / unfitted / "
     "update()d / subset / pickled specs, joint structured builds, repeated calls) over a shared pool of formulas, frames and context "
     "objects are executed by the real code in one process; every call's result is digested (names, value bytes, index, dropped rows). "
     "The same calls are then executed in a shuffled order, each on freshly rebuilt objects, in a fresh interpreter with a different "
-    "hash seed: every digest must be bit-identical. Inputs (frames, context lists/arrays, formula reprs) must be deep-equal before "
+    "hash seed: every digest must be bit-identical. Inputs (frames, context lists/arrays, formulas down to each factor's kind) must be deep-equal before "
     "and after, and each pool spec must behave at the end as it did at first. Every spec of the history is also pickled in "
     "process A and restored in process B, where replaying it, looking its terms up through equal term objects and subsetting it "
     "must answer exactly as the original does in A."
